@@ -1208,6 +1208,7 @@ class _Ops:
             self.after_fault = True
             return StepResult("faulted", "call-faulted")
         if st == "expected":
+            self.set_buf(x, "unknown")  # members evaluated before the failing one may have refreshed their buffers
             return StepResult("expected_error", "call-noparams")
         if st == "raised":
             return StepResult("ok", "call-raised", [self.viol("C09", "raises", x, "call", self.exc_detail(y))])
@@ -1290,6 +1291,7 @@ class _Ops:
             self.after_fault = True
             return StepResult("faulted", which + "-faulted")
         if st == "expected":
+            self.set_buf(x, "unknown")  # members evaluated before the failing one may have refreshed their buffers
             return StepResult("expected_error", which + "-noparams")
         if st == "raised":
             if not valid:
@@ -1429,6 +1431,7 @@ class _Ops:
             self.related_unknown(x)
             return StepResult("faulted", "update-faulted")
         if st == "expected":
+            self.set_buf(x, "unknown")  # members evaluated before the failing one may have refreshed their buffers
             return StepResult("expected_error", "update-noparams")
         if st == "raised":
             return StepResult("ok", "update-raised", [self.viol("C09", "raises", x, "update", self.exc_detail(r))])
@@ -2136,6 +2139,8 @@ class _Ops:
                     return StepResult("skipped")
                 seen.add(id(cur))
                 cur = cur.params
+            if self.in_composite(x) and self.batch_of(o.obj) != self.batch_of(t) and not self.has_none(x, strict=True):
+                return StepResult("skipped")  # members of one composite keep a common batch size (cf. false alarms 26, 46)
             st, r = self.guarded(lambda: t.link_(o.obj))
             what = "link_"
             if st == "ok":
